@@ -127,6 +127,20 @@ CHECKS = {
         "modelled (1e-9 relative tolerance; 1e-5 for float32 ancillary features).",
    technique="Coq induction over write histories with exact rational means + vm_compute correspondence + numpy oracle",
    design="5/C20"),
+ "C16": dict(
+   text="Machine-checked proof (Coq 8.16.1) about a Gallina model of downsample_rand, downsample_grid (bad/good masks, "
+        "exact-rational cell index, populate_grid, remove/add/pad adjustment), the limit-events step of Filter.update "
+        "and get_downsampled_scatter's mask translation, with the seeded numpy choice as an oracle: the result is the "
+        "input selected by the returned mask, the count is min(request, eligible) in both invalid-handling modes, the "
+        "dataset-level mask lies inside filter.all and selects exactly the returned points, and the result never "
+        "depends on the global RNG state; the two .pyx defects are _refuted/_partial pairs. Tied by vm_compute "
+        "correspondence against the compiled module AND the de-cythonised .pyx source.",
+   note="Trusted: Coq kernel+vm_compute; model tied by differential testing; numpy RandomState(47) (oracle hypothesis "
+        "choice_ok checked on every recorded draw); the observed NaN->uint32 cast; float cell index vs exact floor "
+        "(generator avoids ranges divisible by 13 or 23); Cython missing: .pyx executed as de-cythonised Python. "
+        "Known findings: C16-grid-pad-overrequest, C16-grid-constant-axis.",
+   technique="Coq proofs with a choice oracle (subset/count/determinism) + vm_compute correspondence on binary and de-cythonised source",
+   design="5/C16"),
 }
 
 def main():
